@@ -328,7 +328,39 @@ def call(ctx, case, w, S, i, expect, argdesc, obj=None):
 def mutate(ctx, w, S, rng, i, who):
     o = w.env[i]
     stream = w.stream
-    kind = rng.choice(["move", "moveto", "rotate", "setpos", "view", "collinear"])
+    kind = rng.choice(["move", "moveto", "rotate", "setpos", "view", "collinear"] + (["resids"] if who == "argument" else []))
+    if kind == "resids":
+        # residue numbers (coordinate side only: assigned atom by atom through views, the shared topology is not
+        # touched) with gaps, out of order, or straddling the 99999 -> 0 wrap of a large .gro file: the result
+        # must carry exactly THESE numbers, residue by residue (seed C04-6: numbering shifted to start at the
+        # argument's first residue number instead of copied)
+        try:
+            sizes = [len(r) for r in o.residues]
+        except Exception:   # noqa: BLE001
+            sizes = []
+        if not sizes:
+            kind = "move"
+        else:
+            cur = rng.choice([rng.randint(0, 9000), 99998, 99999, 5])
+            m = w.meta[i]
+            k = 0
+            st = "ok"
+            for sz in sizes:
+                v = cur % 100000
+                for _ in range(sz):
+                    st, _ = w.run(f"getatom {i} {k}", f"{who}[{k}]", lambda k=k: o[k],
+                                  {"g": m["g"], "t": m["t"], "parent": i, "k": k})
+                    if st != "ok":
+                        break
+                    j = len(w.env) - 1
+                    st, _ = w.run(f"setattr {j} gro_resid {v}", f"{who}[{k}].gro_resid={v}",
+                                  lambda j=j, v=v: setattr(w.env[j], "gro_resid", v))
+                    k += 1
+                if st != "ok":
+                    break
+                cur += rng.choice([1, 2, 4, 17, -3])
+            ctx.count(f"mutate:{who}:resids-through-views:{st}")
+            return st
     if kind == "collinear":
         # a conformation in which one anchor (>= 2 bonds) is EXACTLY collinear with its two lowest-numbered
         # bonded atoms (dyadic coordinates along an integer direction: the cross product is exactly zero), the
